@@ -33,7 +33,7 @@ class Contract:
     def __init__(self, target, params, requires=(), ensures=(), raises=None, loops=None, overrides=None,
                  setup=None, props=(), name=None, raises_only_if=False, notes="", assumes=(), result_kind=None,
                  frame=None, extra_names=None, timeout=10000, path_ensures=None, stubs=None, tier="quick",
-                 case=None, native_seams=None, ghost_frame=None):
+                 case=None, native_seams=None, ghost_frame=None, block=None):
         self.target = target
         self.params = params
         self.requires = list(requires)
@@ -53,6 +53,7 @@ class Contract:
         self.timeout = timeout
         self.path_ensures = path_ensures
         self.tier = tier                 # "quick": every run; "thorough": only in the thorough tier
+        self.block = block               # (name, selector(func ast) -> statements): verify an extracted statement block
         self.ghost_frame = list(ghost_frame or [])     # ghost variables a call may change (havoced at call sites)
         self.native_seams = list(native_seams or [])   # seams scripted by the native replay / search harness
         self.case = case                 # label of the precondition case this contract instance covers
@@ -383,6 +384,10 @@ def make_engine(index, schema_mod, contract=None):
 def verify(contract, index, schema_mod, keep_states=True):
     t0 = time.time()
     fs = index.func(contract.target)
+    if contract.block is not None:
+        from .source import extract_block
+        bname, selector = contract.block
+        fs = extract_block(fs, selector, bname, list(contract.params))
     res = FunctionResult(contract, fs)
     try:
         _verify(contract, index, schema_mod, fs, res)
@@ -457,11 +462,12 @@ def _verify(contract, index, schema_mod, fs, res):
         raw.append((f"{contract.name}.{ob['name']}", ob["kind"], ob["pc"], ob["cond"], ob["state"], ob["line"]))
     normal_paths = 0
     for st1, flow in outs:
-        if flow.kind not in ("normal", "return"):
+        if flow.kind not in ("normal", "return") and not (contract.block is not None and flow.kind in ("break", "continue")):
             raise Untranslatable(f"flow {flow.kind} at function end")
         normal_paths += 1
         result = flow.value if flow.kind == "return" else NONE
         st1.locals["result"] = result
+        st1.locals["flow"] = const(flow.kind)      # how the block was left: normal / return / continue / break
         for ename, expr in contract.ensures:
             stc = st1.copy()
             t = eng.ev_merged(parse_expr(expr), stc, want_bool=True)
